@@ -97,7 +97,9 @@ RandomAccessIterator3 parallel_multiway_merge_base(
 
     size_t num_seqs = seqs_ne.size();
 
-    if (total_size == 0 || num_seqs == 0)
+    // nothing to merge: also covers size == 0, for which equally_split()
+    // would produce the rank -1
+    if (total_size == 0 || num_seqs == 0 || size == 0)
         return target;
 
     if (static_cast<DiffType>(num_threads) > total_size)
